@@ -71,6 +71,13 @@ CHECKS = {
             "gwb-dat binary's stdout vs the model's layout filled with the library's answer from wbprobe; oracle: meaning of "
             "each header name.",
             "proof about the column-layout model + binary-vs-model correspondence + header-meaning oracle", "4 C17"),
+    "C18": ("Theorems (Properties_C18.v; index theorems axiom-free, positions over reals): Cartesian grids have (nx+1)(ny+1)(nz+1) "
+            "nodes and nx*ny*nz cells; the node stored at the linear index is lattice node (i,j,k); every cell lists the 4/8 "
+            "corners of its lattice cell and references existing nodes only; first/last node on the box faces, Depth = top - z; "
+            "the tag filter keeps exactly the selected cells with offsets nvert, 2 nvert, ... Not a theorem: XML writing (vtu11), "
+            "chunk/annulus/sphere layouts (checked by parsing and by the Depth/radius relation). Tie: connectivity of the binary's "
+            "VTU vs the extracted model; node values vs the library through wbprobe at the recomputed positions.",
+            "proof (lia/nia index theorems) + binary-vs-model connectivity correspondence + node-value oracle", "4 C18"),
 }
 
 NOT_YET = {
